@@ -84,13 +84,22 @@ pub fn exec(w: &[&str]) -> Option<String> {
                     info.insert(f[0].to_string(), (parse_usize(f[1])?, parse_usize(f[2])?));
                 }
             }
-            let mut bytes = Vec::new();
+            // one serialization buffer reused across calls (a caller that keeps its buffer): consecutive graphs of equal
+            // encoded length are then evaluated from the same address
+            thread_local! { static SER: std::cell::RefCell<Vec<u8>> = std::cell::RefCell::new(Vec::with_capacity(1 << 16)); }
+            let mut bytes = SER.with(|b| std::mem::take(&mut *b.borrow_mut()));
+            bytes.clear();
+            struct Back(Vec<u8>);
             if serialize_witnesscalc_graph(&mut bytes, &nodes, &sigs, &info).is_err() {
+                SER.with(|b| *b.borrow_mut() = bytes);
                 return Some("err".into());
             }
+            let bytes = Back(bytes);
+            impl Drop for Back { fn drop(&mut self) { let v = std::mem::take(&mut self.0); SER.with(|b| *b.borrow_mut() = v); } }
+            impl std::ops::Deref for Back { type Target = Vec<u8>; fn deref(&self) -> &Vec<u8> { &self.0 } }
             if w[1] == "store" {
                 // the stored container and whether reading it back gives an equal graph, signal list and input map
-                return Some(match deserialize_witnesscalc_graph(std::io::Cursor::new(&bytes)) {
+                return Some(match deserialize_witnesscalc_graph(std::io::Cursor::new(&bytes[..])) {
                     Ok((n2, s2, i2)) => format!("same={} bytes={}", n2 == nodes && s2 == sigs && i2 == info, show_bytes(&bytes)),
                     Err(_) => "err".into(),
                 });
@@ -123,6 +132,31 @@ pub fn exec(w: &[&str]) -> Option<String> {
                 inputs.push((n.to_string(), vals));
             }
             Some(show_frs(&rln::circuit::calculate_rln_witness(inputs, rln::circuit::graph_from_folder())))
+        }
+        // the bundled graph from a CALLER-OWNED, REUSED buffer: `bundled_buf <inputs> <off:byte,...|->` patches the buffer in place,
+        // evaluates, and restores the bytes, so that consecutive calls see different graphs of equal length at one address
+        ("bundled_buf", 3) => {
+            thread_local! { static BUF: std::cell::RefCell<Vec<u8>> = std::cell::RefCell::new(rln::circuit::graph_from_folder().to_vec()); }
+            let mut inputs: Vec<(String, Vec<Fr>)> = Vec::new();
+            for e in w[1].split(';') {
+                let (n, v) = e.split_once('=')?;
+                let vals: Vec<Fr> = if v.is_empty() { vec![] } else { v.split(',').map(parse_fr).collect::<Option<_>>()? };
+                inputs.push((n.to_string(), vals));
+            }
+            let mut patch: Vec<(usize, u8)> = Vec::new();
+            if w[2] != "-" {
+                for e in w[2].split(',') {
+                    let (o, b) = e.split_once(':')?;
+                    patch.push((parse_usize(o)?, parse_usize(b)? as u8));
+                }
+            }
+            BUF.with(|buf| {
+                let saved: Vec<(usize, u8)> = { let b = buf.borrow(); patch.iter().filter(|(o, _)| *o < b.len()).map(|(o, _)| (*o, b[*o])).collect() };
+                { let mut b = buf.borrow_mut(); for (o, v) in &patch { if *o < b.len() { b[*o] = *v; } } }
+                let r = std::panic::catch_unwind(std::panic::AssertUnwindSafe(|| { let b = buf.borrow(); show_frs(&rln::circuit::calculate_rln_witness(inputs, &b)) }));
+                { let mut b = buf.borrow_mut(); for (o, v) in &saved { b[*o] = *v; } }
+                Some(r.unwrap_or_else(|_| "panic".into()))
+            })
         }
         // Montgomery evaluator on field elements
         ("op", 4) => {
